@@ -32,6 +32,13 @@ Proved here, for all inputs / schedules of the model (Model/C20.lean):
   * transmit  — `transmit_accepts_once`: with `Transmit` one critical section, each (report, round) is accepted
                 exactly once in every order of the nodes' calls (the lock discipline itself is a fact about the
                 code: checked by an un-timed concurrent stress on the real loader and by the race build).
+  * churn     — `hub_locked_never_sends_closed`: with the registry's read lock held from the first step of a broadcast
+                to its last send, no schedule of Subscribe / Unsubscribe / broadcast steps sends on a closed channel
+                (plugin instances replaced by a later `ocr3config` event while the chain runs);
+                `hub_unlocked_sends_closed` (lock released after the channels were taken: four steps crash the process),
+                `hub_unlocked_safe_without_unsub` (no Unsubscribe while blocks flow — plans with one config event —
+                cannot tell the two apart).  That the code holds the lock is a fact about the code: checked by the
+                un-timed churn cases on the real chain pieces and real metadata stores.
 NOT proved (no model here expresses them; reported from the runs as support only):
   termination and summary printing of the real simulator under libocr's schedules,
   data-race freedom, and the run-record predicate (`recordOk`) for real runs.
@@ -990,6 +997,117 @@ example : recordOk 1 [⟨0, "123456789", 10, true⟩, ⟨2, "123456789", 10, tru
 example : recordOk 1 [⟨0, "123456789", 10, true⟩, ⟨0, "123456789", 10, false⟩] [⟨"0xabc", 3⟩]
     [⟨true, 12, 3, "0xabc", "123456789", 10⟩] = false := by decide      -- one node only
 example : recordOk 1 [] [⟨"0xabc", 3⟩] [] = false := by decide           -- an accepted report without a row: empty
+
+/-! ### subscribers coming and going on a running block source -/
+
+/-- what the read lock held over the whole broadcast maintains: everything still to be sent to is open -/
+def Hub.pendingOpen (h : Hub) : Prop := ∀ c ∈ h.pending, c ∈ h.chans
+
+theorem Hub.step_locked_inv (h : Hub) (op : HubOp) (hp : h.pendingOpen) (hc : h.closedSends = 0) :
+    (h.step true op).pendingOpen ∧ (h.step true op).closedSends = 0 := by
+  cases op with
+  | sub =>
+    simp only [Hub.step]
+    by_cases he : h.pending.isEmpty = true
+    · simp only [he, Bool.not_true, Bool.and_false, Bool.false_eq_true, if_false]
+      refine ⟨?_, hc⟩
+      intro c hcm
+      exact List.mem_append_left _ (hp c hcm)
+    · simp only [he, Bool.not_false, Bool.and_true, if_true]
+      exact ⟨hp, hc⟩
+  | unsub id =>
+    simp only [Hub.step]
+    by_cases he : h.pending.isEmpty = true
+    · simp only [he, Bool.not_true, Bool.and_false, Bool.false_eq_true, if_false]
+      refine ⟨?_, hc⟩
+      intro c hcm
+      have : h.pending = [] := List.isEmpty_iff.mp he
+      simp [this] at hcm
+    · simp only [he, Bool.not_false, Bool.and_true, if_true]
+      exact ⟨hp, hc⟩
+  | snap =>
+    simp only [Hub.step]
+    by_cases he : h.pending.isEmpty = true
+    · simp only [he, if_true]
+      exact ⟨fun c hcm => hcm, hc⟩
+    · simp only [he, Bool.false_eq_true, if_false]
+      exact ⟨hp, hc⟩
+  | send =>
+    simp only [Hub.step]
+    cases hpe : h.pending with
+    | nil => exact ⟨by intro c hcm; simp [hpe] at hcm ⊢, hc⟩
+    | cons c rest =>
+      have hmem : c ∈ h.chans := hp c (by simp [hpe])
+      simp only [hmem, decide_true, if_true]
+      refine ⟨?_, hc⟩
+      intro d hd
+      exact hp d (by simp [hpe, hd])
+
+/-- With the read lock held from the first step of a broadcast to its last send, NO schedule of subscribes,
+unsubscribes and broadcast steps ever sends on a closed channel. -/
+theorem hub_locked_never_sends_closed (ops : List HubOp) : (Hub.run true ops).crashFree = true := by
+  have key : ∀ (ops : List HubOp) (h : Hub), h.pendingOpen → h.closedSends = 0 →
+      (ops.foldl (Hub.step true) h).closedSends = 0 := by
+    intro ops
+    induction ops with
+    | nil => intro h _ hc; exact hc
+    | cons op rest ih =>
+      intro h hp hc
+      have := Hub.step_locked_inv h op hp hc
+      exact ih _ this.1 this.2
+  have h0 : (Hub.run true ops).closedSends = 0 :=
+    key ops {} (by intro c hc; simp at hc) rfl
+  simp [Hub.crashFree, h0]
+
+/-- Released after the channels have been taken, the lock no longer protects the sends: subscribe, broadcast takes
+the channel, unsubscribe (closes it), broadcast sends. -/
+theorem hub_unlocked_sends_closed : (Hub.run false [.sub, .snap, .unsub 1, .send]).closedSends = 1 := by decide
+
+/-- … but as long as nobody unsubscribes while blocks flow (a plan with ONE config event: instances are only closed
+after the chain has stopped) the unlocked broadcast is never caught: why runs with a single configuration cannot
+tell the two apart. -/
+theorem hub_unlocked_safe_without_unsub (ops : List HubOp) (hno : ∀ op ∈ ops, ∀ id, op ≠ .unsub id) :
+    (Hub.run false ops).crashFree = true := by
+  have key : ∀ (ops : List HubOp) (h : Hub), (∀ op ∈ ops, ∀ id, op ≠ .unsub id) → h.pendingOpen → h.closedSends = 0 →
+      (ops.foldl (Hub.step false) h).closedSends = 0 := by
+    intro ops
+    induction ops with
+    | nil => intro h _ _ hc; exact hc
+    | cons op rest ih =>
+      intro h hno hp hc
+      have hrest : ∀ op ∈ rest, ∀ id, op ≠ .unsub id := fun o ho => hno o (List.mem_cons_of_mem _ ho)
+      have hop : ∀ id, op ≠ .unsub id := hno op (by simp)
+      have step : (h.step false op).pendingOpen ∧ (h.step false op).closedSends = 0 := by
+        cases op with
+        | sub =>
+          simp only [Hub.step, Bool.false_and, Bool.false_eq_true, if_false]
+          exact ⟨fun c hcm => List.mem_append_left _ (hp c hcm), hc⟩
+        | unsub id => exact absurd rfl (hop id)
+        | snap =>
+          simp only [Hub.step]
+          by_cases he : h.pending.isEmpty = true
+          · simp only [he, if_true]
+            exact ⟨fun c hcm => hcm, hc⟩
+          · simp only [he, Bool.false_eq_true, if_false]
+            exact ⟨hp, hc⟩
+        | send =>
+          simp only [Hub.step]
+          cases hpe : h.pending with
+          | nil => exact ⟨by intro c hcm; simp [hpe] at hcm ⊢, hc⟩
+          | cons c rest' =>
+            have hmem : c ∈ h.chans := hp c (by simp [hpe])
+            simp only [hmem, decide_true, if_true]
+            exact ⟨fun d hd => hp d (by simp [hpe, hd]), hc⟩
+      exact ih _ hrest step.1 step.2
+  have h0 : (Hub.run false ops).closedSends = 0 :=
+    key ops {} hno (by intro c hc; simp at hc) rfl
+  simp [Hub.crashFree, h0]
+
+/-- the schedule the churn cases aim at: under the lock every instance is served and leaves afterwards … -/
+example : (Hub.run true (churnSchedule 2 3)).closedSends = 0 ∧ (Hub.run true (churnSchedule 2 3)).delivered = 9 ∧
+    (Hub.run true (churnSchedule 2 3)).chans = [1, 2] := by decide
+/-- … without it the very first instance that leaves mid-broadcast is sent to after its channel was closed -/
+example : (Hub.run false (churnSchedule 0 1)).closedSends = 1 ∧ (Hub.run false (churnSchedule 2 3)).closedSends = 3 := by decide
 
 theorem earlyExit_noop (s : PState) : step s .earlyExit = s := rfl
 
